@@ -203,6 +203,43 @@ theorem strtbl_off_same_attr_value (c : WCfg) (na : Option (List Attr)) (a : Att
   (`C06.literals_only_via_strtbl`).
 -/
 
+
+/-! ## All encoder options at once -/
+
+/-- **`enc_opts_same_meaning`** (DESIGN §5 C07) at the level of what a reader reports, `_partial` as
+    `C06.denotes_source_partial` (plain trees of plain languages): two option tuples that agree on
+    white-space preservation — any versions, string table on or off, with or without public
+    identifier — produce outputs whose strict reading (and the parser model's) has the same
+    XML-level view: same elements, same attributes and values, same character data. -/
+theorem enc_opts_same_meaning_partial (cfg₁ cfg₂ : X2WCfg) (hk : cfg₁.keepWs = cfg₂.keepWs)
+    (t : Tree) (bs₁ bs₂ : Bytes) (lang : Lang) (r : Node)
+    (hlang : t.lang = some lang) (hroot : t.root = some r)
+    (hl : langOk lang = true) (hover : treeOver lang t = true)
+    (h₁ : treeToWbxml cfg₁ t = .ok bs₁) (h₂ : treeToWbxml cfg₂ t = .ok bs₂)
+    (hpn : plainNode r = true) (hpl : plainLang lang = true) (hnta : noTypedAttr lang.id = true)
+    (hvs : valSemOk lang = true) (has : attrSemOk lang = true) (hts : tagSemOk lang = true)
+    (han : attrNameSemOk lang = true) :
+    ∃ d₁ d₂ : Doc, bs₁ = Spec.ser d₁ ∧ bs₂ = Spec.ser d₂ ∧
+      ∀ p₁ p₂ : PCfg, headerLang p₁ d₁.hdr = some lang → headerLang p₂ d₂.hdr = some lang →
+        (headerCharset p₁ d₁.hdr = 3 ∨ headerCharset p₁ d₁.hdr = 106) →
+        (headerCharset p₂ d₂.hdr = 3 ∨ headerCharset p₂ d₂.hdr = 106) →
+        p₁.charsets.contains (headerCharset p₁ d₁.hdr) = true →
+        p₂.charsets.contains (headerCharset p₂ d₂.hdr) = true →
+        cfg₁.version < 256 → cfg₂.version < 256 → bs₁.length < 4294967296 → bs₂.length < 4294967296 →
+        (parse p₁ bs₁).result = .ok () ∧ (parse p₂ bs₂).result = .ok () ∧
+        (parse p₁ bs₁).events.flatMap toks = (parse p₂ bs₂).events.flatMap toks := by
+  obtain ⟨d₁, e₁, k₁⟩ := C06.denotes_source_partial cfg₁ t bs₁ lang r hlang hroot hl hover h₁ hpn hpl hnta hvs has hts han
+  obtain ⟨d₂, e₂, k₂⟩ := C06.denotes_source_partial cfg₂ t bs₂ lang r hlang hroot hl hover h₂ hpn hpl hnta hvs has hts han
+  refine ⟨d₁, d₂, e₁, e₂, ?_⟩
+  intro p₁ p₂ a₁ a₂ b₁ b₂ c₁ c₂ v₁ v₂ s₁ s₂
+  obtain ⟨_, r₁, _, t₁⟩ := k₁ p₁ a₁ b₁ c₁ v₁ s₁
+  obtain ⟨_, r₂, _, t₂⟩ := k₂ p₂ a₂ b₂ c₂ v₂ s₂
+  refine ⟨r₁, r₂, ?_⟩
+  rw [t₁, t₂]
+  have f₁ := dcfgOf_view_fields cfg₁ lang
+  have f₂ := dcfgOf_view_fields cfg₂ lang
+  exact (srcToks_congr _ _ (by simp) (by rw [f₁.1, f₂.1, hk]) (by rw [f₁.2, f₂.2, hk])).1 r
+
 /-! ## XML generation modes -/
 
 /-- "Compact, indented (any indent width) and canonical XML generation … differing only in white
